@@ -144,7 +144,7 @@ func tTag(c context, s []byte) (context, int) {
 	return context{
 		state:   state,
 		element: c.element,
-		attr:    attr{name: strings.ToLower(string(s[i:j]))},
+		attr:    attr{name: asciiToLower(s[i:j])},
 		linkRel: c.linkRel,
 	}, j
 }
@@ -283,6 +283,20 @@ func eatAttrName(s []byte, i int) (int, *Error) {
 		}
 	}
 	return len(s), nil
+}
+
+// asciiToLower returns s with its ASCII upper-case letters in lower case. HTML matches
+// attribute names and keywords ASCII case-insensitively; strings.ToLower would also turn
+// U+212A KELVIN SIGN into 'k'.
+func asciiToLower(s []byte) string {
+	b := make([]byte, len(s))
+	for i, c := range s {
+		if 'A' <= c && c <= 'Z' {
+			c += 'a' - 'A'
+		}
+		b[i] = c
+	}
+	return string(b)
 }
 
 // asciiAlpha reports whether c is an ASCII letter.
